@@ -6,12 +6,19 @@ import HdwModel.Model.Signature
 import HdwModel.Model.Rlp
 import HdwModel.Model.CliHex
 import HdwModel.Model.Mnemonic
+import HdwModel.Model.Hdk
+import HdwModel.Driver.NfkdData
 import HdwModel.Driver.Judge
 
 namespace Hdw.Driver
 open Hdw
 
 def P : Prims := Prim.real
+def CV : Curve Prim.Secp.Pt := Prim.realCurve
+
+/-- run-time environment of the driver -/
+structure Env where
+  nfkd : NfkdTable
 
 def compsStr (p : Path.Path) : String :=
   if p.isEmpty then "-" else
@@ -28,7 +35,7 @@ def sigArg (r s par : String) : Option Sig := do
   if r.length > 32 || s.length > 32 || p > 1 then none
   else if Sig.validScalars (beVal r) (beVal s) then some ⟨beVal r, beVal s, p == 1⟩ else none
 
-def runOp (parts : List String) : Resp :=
+def runOp (env : Env) (parts : List String) : Resp :=
   match parts with
   | ["msg.hash", m] =>
     match unhex m with
@@ -65,6 +72,37 @@ def runOp (parts : List String) : Resp :=
       | .ok (ph, k) => .ok [hxStr ph, toString k, toString (requested.getD 0)]
       | .err _ => .err
       | .panic _ => .panic
+    | _, _ => .harness "bad arg"
+  | ["mn.seed", ph, pw] =>
+    match utf8Arg ph, utf8Arg pw with
+    | some ph, some pw =>
+      let r : Res Bytes := do
+        let m ← Mnemonic.fromPhrase P ph
+        Mnemonic.seed P env.nfkd.nfkd m pw
+      ofRes r fun b => [hx b]
+    | _, _ => .harness "bad arg"
+  | ["hdk.derive", seed, path] =>
+    match unhex seed, utf8Arg path with
+    | some seed, some path =>
+      let r : Res Nat := do
+        let p ← Path.parse path
+        Hdk.derive P CV seed p
+      ofRes r fun k => [hx (Account.secret k)]
+    | _, _ => .harness "bad arg"
+  | ["acct.new", b] =>
+    match unhex b with
+    | some b => ofRes (Account.new CV b) fun d =>
+        [hx (Account.secret d), hx (Account.publicUncompressed CV d),
+         hxStr (Account.addressDisplay P (Account.address P CV d))]
+    | none => .harness "bad arg"
+  | ["acct.sign", key, digest] =>
+    match unhex key, unhex digest with
+    | some key, some digest =>
+      if digest.length != 32 then .harness "digest must be 32 bytes" else
+      let r : Res Sig := do
+        let d ← Account.new CV key
+        Account.trySign P CV d digest
+      ofRes r sigFields
     | _, _ => .harness "bad arg"
   | ["path.parse", a] =>
     match utf8Arg a with
@@ -122,11 +160,11 @@ def runOp (parts : List String) : Resp :=
   | op :: _ => .harness s!"unknown op {op}"
   | [] => .harness "empty"
 
-def runModelLine (line : String) : String :=
-  (runOp (line.splitOn " ")).render
+def runModelLine (env : Env) (line : String) : String :=
+  (runOp env (line.splitOn " ")).render
 
 open Judge in
-def judgeOp (parts : List String) (resp : String) : Verdict :=
+def judgeOp (env : Env) (parts : List String) (resp : String) : Verdict :=
   match parts with
   | ["msg.hash", m] => match unhex m with
     | some b => judgeMsgHash b resp
@@ -140,6 +178,18 @@ def judgeOp (parts : List String) (resp : String) : Verdict :=
   | ["mn.random", n, ent] =>
     match n.toNat?, (if ent == "fail" then some none else (unhex ent).map some) with
     | some n, some inject => judgeMnRandom n inject resp
+    | _, _ => .skip
+  | ["hdk.derive", seed, path] => match unhex seed, utf8Arg path with
+    | some seed, some path => judgeDerive seed (String.ofList path) resp
+    | _, _ => .skip
+  | ["acct.new", b] => match unhex b with
+    | some b => judgeAcctNew b resp
+    | none => .skip
+  | ["acct.sign", key, digest] => match unhex key, unhex digest with
+    | some key, some digest => judgeSign key digest resp
+    | _, _ => .skip
+  | ["mn.seed", ph, pw] => match utf8Arg ph, utf8Arg pw with
+    | some ph, some pw => judgeSeed env.nfkd ph pw resp
     | _, _ => .skip
   | ["path.parse", a] => match utf8Arg a with
     | some s => judgePathParse (String.ofList s) resp
@@ -192,9 +242,9 @@ def judgeOp (parts : List String) (resp : String) : Verdict :=
     | none => .skip
   | _ => .skip
 
-def runJudgeLine (line : String) : String :=
+def runJudgeLine (env : Env) (line : String) : String :=
   match line.splitOn "\t" with
-  | [op, resp] => (judgeOp (op.splitOn " ") resp).render
+  | [op, resp] => (judgeOp env (op.splitOn " ") resp).render
   | _ => "skip"
 
 end Hdw.Driver
